@@ -26,6 +26,7 @@ type c17Case struct {
 	Subnets      int
 	Split        int
 	PageSize     int
+	Stagger      bool // every other instance becomes ready one poll later
 }
 
 func c17Run(p c17Case) (entries []sim.Entry, err error, before, after int64, setup error) {
@@ -49,6 +50,7 @@ func c17Run(p c17Case) (entries []sim.Entry, err error, before, after int64, set
 	}
 	env.ASG.Max = int64(p.Max)
 	env.W.FleetSplit, env.W.StatusPageSize = p.Split, p.PageSize
+	env.W.ReadyStagger = p.Stagger
 	if e := env.Prov.Refresh(); e != nil {
 		return nil, nil, 0, 0, e
 	}
@@ -212,6 +214,9 @@ func c17Grid(t *testing.T, tier string, shard, shards int, c *h.Collector) {
 								for _, desired := range []int{0, 3} {
 									run(c17Case{Desired: desired, Max: 200, D: d, Fleet: true, Lifecycle: lc, Overrides: ov, Subnets: sn, Split: split, PageSize: ps})
 								}
+								if lc == "" && ov == 0 {
+									run(c17Case{Desired: 3, Max: 200, D: d, Fleet: true, Subnets: sn, Split: split, PageSize: ps, Stagger: true})
+								}
 							}
 						}
 					}
@@ -230,7 +235,7 @@ func init() {
 	register(&Check{
 		ID:    "C17",
 		Level: "exploration",
-		Rule: "every provider-level sequence Refresh ; [DeleteNodes(0..3), optionally with its k-th terminate call failing] ; IncreaseSize(d) on the real NodeGroup for desired 0..6 x max 0..7 x d -1..8; fleet mode for d in {1,19,20,21,39,40,41,59,60,61,100} x lifecycle {unset, on-demand, spot} x overrides {none, 2 types} x subnets {1,2} x fleet answer split over 1..3 instance sets x status page size {1,50}; " +
+		Rule: "every provider-level sequence Refresh ; [DeleteNodes(0..3), optionally with its k-th terminate call failing] ; IncreaseSize(d) on the real NodeGroup for desired 0..6 x max 0..7 x d -1..8; fleet mode for d in {1,19,20,21,39,40,41,59,60,61,100} x lifecycle {unset, on-demand, spot} x overrides {none, 2 types} x subnets {1,2} x fleet answer split over 1..3 instance sets x status page size {1,50} x instances ready together / every other one a poll later; " +
 			"recorded arguments compared with the statement; non-trivial = every sequence; distinct by its parameters",
 		Grid:        c17Grid,
 		Assumptions: append([]string{"no other actor changes the desired capacity between Refresh and the request (an absolute-set API is inherently racy with external writers; the property quantifies over inputs and configurations)"}, commonAssumptions...),
